@@ -2,7 +2,7 @@
 import re
 
 import anchors
-from core import (BA, call_matches, callee_paths, op_local, op_place, op_const, const_int, const_str, place_fields,
+from core import (BA, FA, call_matches, callee_paths, op_local, op_place, op_const, const_int, const_str, place_fields,
                   field_writes)
 from rules import common, dirt
 from rules.C06 import backward_direct
@@ -52,7 +52,7 @@ def run(ctx):
         common.not_reach_f(ctx, "R14.1", "%s|existing=>no-edge" % C.key, C, [t_t], adds + commits + nexts, "an existing path records nothing, commits nothing and ends the loop",
                            "declaring redo-ifcreate for an existing file is accepted (or committed)")
         common.mpt_f(ctx, "R14.1", "%s|existing=>error" % C.key, C, [t_t], ba.returns(), errs, "the existing side returns Err", "the existing side does not return an error")
-        ctx.ob("R14.1", "%s|missing=>add_dep" % C.key, ba.edge_dominates((sw, f_t), adds[0]), where=ctx.where(C, adds[0]), detail="add_dep is dominated by the not-exists edge")
+        ctx.ob("R14.1", "%s|missing=>add_dep" % C.key, FA.of(C).edge_dominates((sw, f_t), adds[0]), where=ctx.where(C, adds[0]), detail="add_dep is dominated by the not-exists edge (over feasible paths)")
         ctx.ob("R14.1", "%s|mode-Created" % C.key, mode_of(C, adds[0], 2) == "Created", where=ctx.where(C, adds[0]), detail="mode: %s" % mode_of(C, adds[0], 2))
         # same path tested and recorded
         from core import taint
@@ -90,7 +90,6 @@ def run(ctx):
     if ctx.ob("R14.3", "%s|anchors" % A.key, all(len(x) == 1 for x in (ad, ss, sc, sv, cm, tx)) and bool(oks), where=A.span, detail="add_dep, set_stamp, set_changed, save, commit, transaction located"):
         order = [tx[0], ad[0], ss[0], sc[0], sv[0], cm[0]]
         # (feasible paths: an Err leaving a spliced-in closure / helper does not continue into the caller's success path)
-        from core import FA
         afa = FA.of(A)
         ok = all(afa.dominates(order[i], order[i + 1]) for i in range(len(order) - 1))
         ctx.ob("R14.3", "%s|sequence" % A.key, ok, where=A.span, detail="transaction -> add_dep -> set_stamp -> set_changed -> save -> commit, each dominating the next")
